@@ -1,25 +1,49 @@
 import Driver.MichIO
-import PytezosModel.Michelson.Constants
+import PytezosModel.Michelson.ConstantsKey
+import PytezosModel.Crypto.RealHash
 open Driver
 
-/-- `n` registrations `<key hex> <expression tokens>` in the order they were made; each is put in front so that a later
-registration under the same key wins, as `dict[key] = value` does -/
-def readRegistry : Nat → List String → Registry → Option (Registry × List String)
-  | 0, ts, acc => some (acc, ts)
+/-- `register_global_constant` with the executable BLAKE2b-256 / double SHA-256 -/
+def realKey (e : Mich) : Except Impl.Constants.KeyErr String := Impl.Constants.registerKey RealHash.cks RealHash.blake e
+
+def keyErrName : Impl.Constants.KeyErr → String
+  | .unrecognisedSource => "unrecognised-source"
+  | .forge => "forge"
+  | .b58 _ => "ValueError"
+
+/-- `n` registrations `<key> <expression tokens>` in the order they were made; `<key>` = `*`: the call was
+`register_global_constant(expression)` and the key is computed here (`realKey`), otherwise the hex of a key written
+directly into `global_constants`.  Each is put in front so that a later registration under the same key wins, as
+`dict[key] = value` does.  `none` = malformed line, `some (.error _)` = the key computation failed -/
+def readRegistry : Nat → List String → Registry → Option (Except Impl.Constants.KeyErr (Registry × List String))
+  | 0, ts, acc => some (.ok (acc, ts))
   | n + 1, ts, acc =>
     match ts with
     | [] => none
     | k :: rest => do
-      let key ← hexToString k
       let (v, rest') ← readMich rest
-      readRegistry n rest' ((key, v) :: acc)
+      if k == "*" then
+        match realKey v with
+        | .ok key => readRegistry n rest' ((key, v) :: acc)
+        | .error e => some (.error e)
+      else
+        let key ← hexToString k
+        readRegistry n rest' ((key, v) :: acc)
 
-/-- line: `<n> (<key hex> <expr>)*n <script>`  →  `ok <expanded script>` | `unknown <hash hex>` | `bad-constant` | `recursion` -/
+/-- lines: `K <expr>` → `ok <key hex>` | `err <why>` (the registration key alone);
+`<n> (<key|*> <expr>)*n <script>`  →  `ok <expanded script>` | `unknown <hash hex>` | `bad-constant` | `recursion` -/
 def handle (line : String) : String :=
   match words line with
+  | "K" :: ts =>
+    match parseMichTokens ts with
+    | some e =>
+      match realKey e with
+      | .ok k => "ok " ++ stringToHex k
+      | .error err => "err " ++ keyErrName err
+    | none => "bad-op"
   | n :: rest =>
     match n.toNat?.bind (fun n => readRegistry n rest []) with
-    | some (reg, ts) =>
+    | some (.ok (reg, ts)) =>
       match parseMichTokens ts with
       | some e =>
         match Impl.Constants.resolve reg e with
@@ -29,6 +53,7 @@ def handle (line : String) : String :=
         | .error .recursion => "recursion"
         | .error .unrecognisedSource => "unrecognised-source"
       | none => "bad-op"
+    | some (.error err) => "key-error " ++ keyErrName err
     | none => "bad-op"
   | [] => "bad-op"
 
